@@ -63,3 +63,37 @@ fn(O + ':OutputStream.push_field', props=P,
    ensures=['os_ok(self)', 'self.offset >= old(self.offset)', 'self.line >= old(self.line)', 'self.level == old(self.level)'],
    modifies=['self._value[*]', 'self.offset', 'self.column', 'self.line'], allocates=True,
    calls={'field': CB})
+
+# ---------------------------------------------------------------------------------------
+# markup/format/utils.py, walk.py: tabstop numbering (C13)
+# ---------------------------------------------------------------------------------------
+F = 'emmet.markup.format'
+cls(F + '.walk:WalkState',
+    fields={'current': 'any', 'parent': 'any', 'ancestors': 'list[any]', 'config': 'any', 'out': 'OutputStream',
+            'field': 'int'})
+
+define('is_field', ['t'], "kind_is(t, 'ref')")
+# value tokens are strings and real fields (variables were resolved to text by the converter)
+define('value_ok', ['tokens'],
+       'forall(0, len(tokens), lambda i: implies(is_field(tokens[i]), tokens[i].index is not None)) and '
+       'forall(0, len(tokens), lambda i: implies(is_field(tokens[i]), tokens[i].index >= 0))')
+
+fn(F + '.utils:push_tokens', props=P,
+   params={'tokens': 'list[str|Field]', 'state': 'WalkState'}, returns='none',
+   requires=['os_ok(state.out)', 'value_ok(tokens)'],
+   ensures=['os_ok(state.out)', 'state.out.level == old(state.out.level)',
+            # the counter only grows; every number emitted for this value lies in [old counter, new counter),
+            # numbers inside one value keep their differences (old counter + written index)
+            'state.field >= old(state.field)',
+            'forall(0, len(tokens), lambda i: implies(is_field(tokens[i]), '
+            '   old(state.field) + tokens[i].index < state.field))',
+            # a value without fields leaves the counter alone
+            'implies(forall(0, len(tokens), lambda i: not is_field(tokens[i])), state.field == old(state.field))'],
+   modifies=['state.field', 'state.out._value[*]', 'state.out.offset', 'state.out.column', 'state.out.line'], allocates=True,
+   loops={0: {'anchor': 'for t in tokens',
+              'invariant': ['os_ok(out)', 'out is state.out', 'out.level == old(state.out.level)', '_i0 <= len(tokens)',
+                            'tokens is _seq0', 'state.field == old(state.field)', 'largest_index >= -1',
+                            'forall(0, _i0, lambda i: implies(is_field(tokens[i]), tokens[i].index <= largest_index))',
+                            'implies(largest_index == -1, forall(0, _i0, lambda i: not is_field(tokens[i])))',
+                            'implies(largest_index != -1, exists(0, _i0, lambda i: is_field(tokens[i])))',
+                            'value_ok(tokens)']}})
